@@ -115,6 +115,81 @@ def _pm_chunk(chunk):
     return len(chunk), nt, fails
 
 
+def _mfile_chunk(chunk):
+    """the machine-file source for PER-MACHINE options in a cross build, through the real `meson setup`: the native file speaks
+    for the build machine, the cross file for the host machine, a [sub:built-in options] section for the subproject only"""
+    import os, shutil, subprocess, sys, tempfile
+    repo = os.environ.get('VERIF_REPO', '/repo')
+    fails, nt = [], 0
+    for mask in chunk:
+        has = {n: bool(mask >> i & 1) for i, n in enumerate(('nat_top', 'nat_sub', 'cross_top', 'cross_sub'))}
+        d = tempfile.mkdtemp(prefix='c07mf')
+        try:
+            src, build = os.path.join(d, 'src'), os.path.join(d, 'b')
+            os.makedirs(os.path.join(src, 'subprojects', 'sub'))
+            open(os.path.join(src, 'meson.build'), 'w').write("project('p')\nsubproject('sub')\n")
+            open(os.path.join(src, 'subprojects', 'sub', 'meson.build'), 'w').write("project('sub')\n")
+            nat = ("[built-in options]\npkg_config_path = '/nat/top'\n" if has['nat_top'] else '') + ("[sub:built-in options]\npkg_config_path = '/nat/sub'\n" if has['nat_sub'] else '')
+            cross = "[host_machine]\nsystem = 'linux'\ncpu_family = 'x86_64'\ncpu = 'x86_64'\nendian = 'little'\n" + \
+                    ("[built-in options]\npkg_config_path = '/cross/top'\n" if has['cross_top'] else '') + ("[sub:built-in options]\npkg_config_path = '/cross/sub'\n" if has['cross_sub'] else '')
+            open(os.path.join(d, 'nat.ini'), 'w').write(nat)
+            open(os.path.join(d, 'cross.ini'), 'w').write(cross)
+            r = subprocess.run([sys.executable, os.path.join(repo, 'meson.py'), 'setup', '--backend=none', '--native-file', os.path.join(d, 'nat.ini'), '--cross-file', os.path.join(d, 'cross.ini'), build, src],
+                               capture_output=True, text=True)
+            case = {'mask': mask, 'sections': [n for n in has if has[n]]}
+            if r.returncode != 0:
+                fails.append({'case': case, 'stage': 'machine-file', 'detail': 'setup failed: ' + (r.stdout + r.stderr)[-300:]})
+                continue
+            code = ("import sys, json; sys.path.insert(0, %r)\nfrom mesonbuild import coredata\nfrom mesonbuild.options import OptionKey\nfrom mesonbuild.mesonlib import MachineChoice\n"
+                    "cd = coredata.load(%r)\nprint(json.dumps({f'{m.name}.{s}': cd.optstore.get_value_for(OptionKey('pkg_config_path', None if s == 'top' else 'sub', m)) for m in MachineChoice for s in ('top', 'sub')}))\n") % (repo, build)
+            q = subprocess.run([sys.executable, '-c', code], capture_output=True, text=True)
+            nt += 1
+            try:
+                import json
+                got = json.loads(q.stdout.strip().splitlines()[-1])
+            except Exception:
+                fails.append({'case': case, 'stage': 'machine-file', 'detail': 'cannot read the configuration back: ' + (q.stdout + q.stderr)[-300:]})
+                continue
+            exp = {'BUILD.top': ['/nat/top'] if has['nat_top'] else [], 'HOST.top': ['/cross/top'] if has['cross_top'] else []}
+            exp['BUILD.sub'] = ['/nat/sub'] if has['nat_sub'] else exp['BUILD.top']
+            exp['HOST.sub'] = ['/cross/sub'] if has['cross_sub'] else exp['HOST.top']
+            if got != exp:
+                fails.append({'case': case, 'stage': 'machine-file', 'detail': f'pkg_config_path per (machine, project): {got}, the machine files prescribe {exp}'})
+        finally:
+            shutil.rmtree(d, ignore_errors=True)
+    return len(chunk), nt, fails
+
+
+EMPTIES = [('pkg_config_path', '', []), ('cmake_prefix_path', '', []), ('force_fallback_for', '', []), ('licensedir', '', ''), ('pkg_config_path', '/a/b,/c', ['/a/b', '/c']),
+           ('force_fallback_for', 'foo,bar', ['foo', 'bar']), ('force_fallback_for', 'sub/dir', ['sub/dir']), ('wrap_mode', 'nofallback', 'nofallback'), ('libdir', 'lib//x', 'lib/x'), ('bindir', 'bin', 'bin')]
+
+
+def _empty_chunk(chunk):
+    """a value given on the command line is the value stored (after the documented conversions: comma lists, directory
+    normalisation for DIRECTORY options) — in particular an empty string stays empty / becomes the empty list"""
+    from mesonbuild.options import OptionStore, OptionKey
+    fails, nt = [], 0
+    for name, given, want in chunk:
+        for source in ('cmd', 'machine-file', 'default_options', 'configure'):
+            st = OptionStore(False)
+            st.init_builtins()
+            k = OptionKey(name)
+            try:
+                if source == 'configure':
+                    st.initialize_from_top_level_project_call({}, {}, {})
+                    st.set_from_configure_command({k: given})
+                else:
+                    st.initialize_from_top_level_project_call({k: given} if source == 'default_options' else {}, {k: given} if source == 'cmd' else {}, {k: given} if source == 'machine-file' else {})
+                got = st.get_value_for(k)
+            except Exception as ex:
+                got = f'{type(ex).__name__}: {ex}'
+            nt += 1
+            exp = want
+            if got != exp:
+                fails.append({'case': {'option': name, 'given': given, 'source': source}, 'stage': 'empty', 'detail': f'-D{name}={given!r} ({source}) is stored as {got!r}, the value given means {exp!r}'})
+    return len(chunk), nt, fails
+
+
 def _prec_chunk(chunk):
     fails, nt = [], 0
     for kind, mask in chunk:
@@ -353,6 +428,14 @@ def run(REG, tier, seed, jobs):
     parts.append({'name': 'C07/bounded/per-machine-options-in-cross-builds', 'function': 'OptionStore.initialize_from_top_level_project_call / initialize_from_subproject_call / get_value_for (is_cross)',
                   'bound': 'all 2^8 subsets of the eight value sources x {pkg_config_path, cmake_prefix_path} x {host, build} machine key x (the other machine silent / set by every source to another value), cross build, real builtin options',
                   'evaluations': ev, 'distinct_nontrivial': nt, 'rule': 'every case', 'exhaustive': True, 'failures': fails})
+    ev, nt, fails = pmap(_mfile_chunk, chunked(iter(range(16)), 1), jobs)
+    parts.append({'name': 'C07/bounded/machine-files-in-cross-builds', 'function': 'meson setup --native-file --cross-file (real machine-file parsing), values read back from coredata',
+                  'bound': 'all 16 subsets of {native [built-in options], native [sub:built-in options], cross [built-in options], cross [sub:built-in options]} giving pkg_config_path; (build, host) x (top level, subproject)',
+                  'evaluations': ev, 'distinct_nontrivial': nt, 'rule': 'every configuration', 'exhaustive': True, 'failures': fails})
+    ev, nt, fails = pmap(_empty_chunk, chunked(iter(EMPTIES), 2), jobs)
+    parts.append({'name': 'C07/bounded/builtin-values-stored-as-given', 'function': 'OptionStore.initialize_from_top_level_project_call / set_from_configure_command on the real builtin options',
+                  'bound': f'{len(EMPTIES)} (builtin option, value) pairs — empty strings for path-list / array / directory options, comma lists, directory spellings — through 4 sources',
+                  'evaluations': ev, 'distinct_nontrivial': nt, 'rule': 'every (value, source)', 'exhaustive': True, 'failures': fails})
     bts = list(BT)
     cases = [(bs, bt, ds, d, o) for bs in (None, 'pd', 'mf', 'cmd') for bt in (bts if bs else ['debug']) for ds in (None, 'pd', 'mf', 'cmd') for d in (['true', 'false'] if ds else ['true'])
              for o in ('fwd', 'rev')]
@@ -384,6 +467,8 @@ def run(REG, tier, seed, jobs):
 
 
 CHECKS = {
+    'C07/bounded/builtin-values-stored-as-given': (_empty_chunk, lambda c: (c['option'], c['given'], c['source'])),
+    'C07/bounded/machine-files-in-cross-builds': (_mfile_chunk, lambda c: c['mask']),
     'C07/bounded/per-machine-options-in-cross-builds': (_pm_chunk, lambda c: (c['option'], c['machine'], c['mask'], c['noise'])),
     'C07/bounded/precedence-all-source-subsets': (_prec_chunk, lambda c: (c['kind'], c['mask'])),
     'C07/bounded/yielding-option-explicit-value': (_yield_chunk, lambda c: (c['parent_value'], c['explicit_sub_value'], c['source'])),
